@@ -196,7 +196,8 @@ def rule_must_drain(ctx):
                 ty = t.get('self_ty', {}).get('s', '')
                 consumers[n] = 'read' if 'ReadOp' in ty else ('write' if 'WriteOp' in ty else '?')
     for m in sorted(R.maintenance):
-        sx = ctx.symex(inline_depth=1, loop_visits=2, inline_pred=lambda n, b, d: False)
+        leads = {n for n in _maintenance_fns(ctx) if n not in consumers and (prog.reachable_from([n]) & set(consumers))}
+        sx = ctx.symex(inline_depth=3, loop_visits=2, inline_pred=lambda n, b, d: True if (n in leads and b.kind != 'closure') else False)
         paths = [p for p in sx.run(m) if not p.diverged]
         for p in paths:
             for kind, chan in (('read', 'read_op_ch'), ('write', 'write_op_ch')):
